@@ -19,7 +19,7 @@ LEVEL = 'exploration'
 RULE = ('case = one program (words drawn from every decoder path + random words, laid out at the reset PC and at '
         'the exception vectors) run under one scenario: replay-from-deep-copy, history-independence-after-restore, '
         'or an interleaving schedule of 2-3 instances; the per-step trace (all registers, CPSR, system registers, '
-        'memory digest, escaped-exception signature) must equal the solo trace; non-trivial = the program executes '
+        'memory digest, escaped-exception signature) must equal the solo trace; and, step by step, a running instance against a deep copy of a never-stepped instance restored to its architectural state before EVERY step (bookkeeping flags that are not architectural are not restored); instances also run with the protection unit ON; non-trivial = the program executes '
         '>= 3 distinct PCs and at least one non-undefined instruction; distinct = (scenario, configuration pair, '
         'schedule shape, trace digest)')
 ASSUMPTIONS = ['a "step" is ArmV6.emulate_cycle(); instance creation is ArmV6(config_file) followed by take_reset()',
